@@ -155,19 +155,17 @@ def alias_keys_ok(k: int) -> bool:
     incl, k = k % 2, k // 2
     keymatch, k = k % 2, k // 2
     order = k % 2
-    anc = PlainScalarString("common", anchor="nm")
+    anc = PlainScalarString("common_name", anchor="nm")
     first = cmap(("name" if keymatch else "zzz", anc))
-    second = cmap(("label", anc), ("other", "common"))
+    second = cmap(("label", anc), ("other", "a_name_too"))
     doc = cmap(("s", first), ("o", second)) if order == 0 else cmap(("o0", cmap(("plain", "x"))), ("s", first), ("o", second))
-    terms = SearchTerms(False, M.CONTAINS, ".", "name" if keymatch else "common")
+    terms = SearchTerms(False, M.CONTAINS, ".", "name")
     paths = [str(p) for p in yp.search_for_paths(LOG, EYAMLProcessor(LOG, doc), doc, terms, PathSeparators.DOT,
                                                  search_values=True, search_keys=True,
                                                  include_value_aliases=bool(incl))]
     note(include_value_aliases=bool(incl), key_matches=bool(keymatch), reported=paths)
-    if keymatch:
-        want = ["s.name"]            # the key matches; 'common' does not contain 'name'
-    else:
-        want = ["s.zzz", "o.other"] + (["o.label"] if incl else [])
+    # the anchored value matches by value as well; its alias under o.label is reported only when aliases are included
+    want = ["s.name" if keymatch else "s.zzz", "o.other"] + (["o.label"] if incl else [])
     return sorted(paths) == sorted(want)
 
 
